@@ -506,7 +506,9 @@ fn tree_strategy() -> BoxedStrategy<TreeCase> {
         prop_oneof![Just(1i8), Just(-1i8)],
         (-4.0f64..5.0).prop_map(|e| 2f64.powf(e)),
         prop_oneof![4 => 0.0f64..3.0, 1 => 3.0f64..30.0, 1 => Just(0.0f64), 1 => -2.0f64..0.0, 1 => 900.0f64..1100.0],
-        prop_oneof![3 => Just(0.0f64), 1 => -3.0f64..3.0],
+        // joint_0 enters Algorithm 6's tree only through the acceptance statistic: shifting it by
+        // thousands must not move any slice / divergence decision
+        prop_oneof![6 => Just(0.0f64), 2 => -3.0f64..3.0, 1 => 500.0f64..3000.0, 1 => -3000.0f64..-500.0],
         prop_oneof![3 => Just(1.0f64), 1 => 0.2f64..4.0],
         any::<u64>(),
         any::<u64>(),
